@@ -190,7 +190,9 @@ class CloneUniverse(Universe):
         elif op == "SetDtype":
             self.V(c["v"]).dtype = ir.DataType[c["name"]]
         elif op == "SetShape":
-            self.V(c["v"]).shape = ir.Shape(list(c["vs"]))
+            self.V(c["v"]).shape = ir.Shape([("N" if d == -1 else d) for d in c["vs"]])      # -1: a symbolic dimension
+        elif op == "MergeShapes":
+            self.V(c["v"]).merge_shapes(ir.Shape([("N" if d == -1 else d) for d in c["vs"]]))
         elif op == "SetDim":
             v = self.V(c["v"])
             if v.shape is None:
@@ -405,6 +407,12 @@ class CloneReplayer:
                 continue
             # an edit: whatever changed on the code must be a cell the model changes too
             exp_obs = obs_of_cs(row["post"]) if exp == "ok" else pre_obs
+            if exp != "ok" and got != "ok" and real != pre_obs:
+                # (C06, judged by the C06 check on its own configuration: a rejected edit that left a trace)
+                d = irdrive.diff_obs(pre_obs, real)
+                self.finding("C06", f"C06:{c['op']}:{exp}:changed:" + "+".join(d), rec, row, got=got, fields=d,
+                             message=f"{c['op']} raised {got} but changed {d}")
+                continue
             if after_clone and dirty and got == "ok":
                 self.serialization_independence(u, views, pre_obs, real, rec, row, c)
             if real == exp_obs:
